@@ -1,5 +1,6 @@
 (* C03 — property theorems only (model: Reader/Model.v, proofs: Reader/Proofs.v and C03/Proofs.v) *)
 From Coq Require Import List String NArith ZArith Bool Sorting.Sorted.
+From Verif Require Server.Data C03.RCheck.
 From Verif Require Import Base.Util Reader.Model Reader.Script Reader.Proofs Reader.Conc C03.Check C03.Proofs C03.ConcProofs C03.SCheck Reader.Example.
 Import ListNotations.
 Local Open Scope string_scope.
@@ -59,6 +60,21 @@ Print Assumptions C03_sort.
 Theorem C03_checker_sound : forall l, chan_ok 0 l = true -> Forall (after 0) l /\ StronglySorted before l.
 Proof. intros l. apply chan_ok_sound. Qed.
 Print Assumptions C03_checker_sound.
+
+(* across pause / resume or restart: the seek positions built from the persisted checkpoints - the floor of the restarted channel
+   clocks - lie above every hybrid time of the checkpoint's millisecond (the checkpoint keeps only the millisecond of the last
+   acknowledged pack's end time); dropping the compensating millisecond breaks it *)
+Theorem C03_resume_floor : forall streams s which,
+  let s' := Server.Data.reset_next streams s which in
+  exists new, Server.Data.seeks s' = (Server.Data.seeks s ++ new)%list
+    /\ forall k id ts, In (k, (id, ts)) new ->
+         exists p, Server.Data.nlookup (Server.Data.store s) k = Some p /\ id = Server.Data.ps_id p
+                   /\ forall l, (0 <= l < 262144)%Z -> (Server.Data.ps_ms p * 262144 + l < ts)%Z.
+Proof. exact resume_seeks_above. Qed.
+Print Assumptions C03_resume_floor.
+Theorem C03_resume_floor_without_ms_refuted : exists ms l : Z, (0 <= l < 262144)%Z /\ ~ (ms * 262144 + l < Server.Data.compose_ts ms)%Z.
+Proof. exact resume_floor_without_ms_refuted. Qed.
+Print Assumptions C03_resume_floor_without_ms_refuted.
 
 Example C03_nonvacuous :
   let s := run 3 ex_labels in
